@@ -795,6 +795,7 @@ public:
         input_ptr_ = nullptr;
         more_ = true;
         header_line_ = 1;
+        header_line_offset_ = 0;
         m_columns_filter_.reset();
         stack_.clear();
         column_names_.erase(column_names_.begin() + min_column_names_, column_names_.end());
